@@ -154,6 +154,8 @@ def cmp(op: str, a: Term, b: Term) -> Term:
         if op in ("==", "!="):
             if is_const(a) and is_const(b):
                 return C((a[1] == b[1]) if op == "==" else (a[1] != b[1]))
+            if isinstance(a, tuple) and isinstance(b, tuple) and a and b and a[0] == "enum" and b[0] == "enum":
+                return C((a == b) if op == "==" else (a != b))
             x, y = sorted((a, b), key=_key)
             return ("eq" if op == "==" else "ne", x, y)
         return ("cmpx", op, a, b)
